@@ -8,12 +8,26 @@ from ..runner import Prop
 ELEMS = ["plain", "cell", "slot", "fin"]
 
 
+def lock_part(body):
+    """the lock trace of a line: `t=…` (suite locks) or the ` L=…` suffix (other suites, field locktrace)"""
+    if body.startswith("t="):
+        return body[2:]
+    i = body.find(" L=")
+    return body[i + 3:] if i >= 0 else None
+
+
+def strip_lock(body):
+    i = body.find(" L=")
+    return body[:i] if i >= 0 else body
+
+
 def parse_tokens(body):
     """`t=a2[0.1],c0[0.2]` -> [('a', 2, [0,1]), ('c', 0, [0,2])]"""
     toks = []
-    if not body.startswith("t="):
+    part = lock_part(body)
+    if part is None:
         return toks
-    for t in body[2:].split(","):
+    for t in part.split(","):
         if not t:
             continue
         if t.startswith("RELOCK"):
@@ -76,7 +90,34 @@ class C10(Prop):
             term = ["error", "3"] if "cell" in c else ["complete"]
             out.append(Case("locks", "threads", [("subs", [c])],
                             [["next", "1"], ["size"], ["retain"], ["next", "2"], term], {"kind": "single-chain"}))
+        # lock traces of whole pipelines (field `locktrace`): merge_all_threads with subscription and
+        # unsubscription, scheduler chains (observe_on/delay/debounce/… _threads) with task polls
+        import importlib
+        from .. import timegen as tg
+        try:
+            c05 = importlib.import_module("vlib.props.c05").PROP
+            fl = [c for c in c05.cases("quick", seed) if c.flavor == "threads"]
+            rng.shuffle(fl)
+            for c in fl[: 1500 if tier == "quick" else 15000]:
+                d = c.copy()
+                d.fields = [("locktrace", ["1"])] + d.fields
+                if rng.random() < 0.6 and not any(e[0] == "unsub" for e in d.events):
+                    d.events = d.events[: rng.randint(1, len(d.events))] + [["unsub"]]
+                d.meta = {"kind": "flatten-locktrace"}
+                out.append(d)
+        except Exception as ex:
+            print(f"note: C10 skips flatten lock traces: {ex}")
+        for i in range(1500 if tier == "quick" else 15000):
+            src = tg.sources(rng, ["hot", "hot", "interval", "timer", "iter"])
+            pipe = tg.chain(rng, src, list(tg.TIME_OPS), rng.randint(1, 3), p_sync=0.3)
+            evs = tg.events(rng, rng.randint(3, 12), hot=(src[0] == "hot"),
+                            mode="mixed" if i % 2 else "fifo", unsub_p=0.15)
+            out.append(Case("time", "threads", [("locktrace", ["1"]), ("pipe", [pipe])], evs,
+                            {"kind": "time-locktrace"}))
         return out
+
+    def project(self, body):
+        return strip_lock(body)
 
     def oracle(self, case, lines, model_lines=None):
         edges = set()
@@ -87,7 +128,6 @@ class C10(Prop):
                 continue
             if b == "PANIC":
                 return {"kind": "panic", "event": k, "detail": b}
-            prev_held = []
             for kind, n, held in parse_tokens(b):
                 if kind == "R":
                     return {"kind": "relock", "event": k, "detail": f"cell {n} re-acquired by its holder: {b}"}
@@ -96,7 +136,7 @@ class C10(Prop):
                         return {"kind": "relock", "event": k, "detail": b}
                     for h in held:
                         edges.add((h, n))
-                if kind == "c":
+                if kind == "c" and case.suite == "locks":
                     if not held:
                         return {"kind": "callback-unguarded", "event": k,
                                 "detail": f"callback of subscriber {n} with no cell held: {b}"}
@@ -126,11 +166,21 @@ class C10(Prop):
         return None
 
     def signature(self, case, failure):
+        if case.suite != "locks":
+            return f"{failure['kind']}|{case.suite}"
         elems = sorted({e for c in case.field("subs") for e in c})
         return f"{failure['kind']}|locks|{','.join(elems)}"
 
     def shrink_candidates(self, case):
         cands = []
+        if case.suite != "locks":
+            for i in range(len(case.events) - 1, -1, -1):
+                if case.events[i][0] == "sub":
+                    continue
+                c = case.copy()
+                del c.events[i]
+                cands.append(c)
+            return cands
         for i in range(len(case.events) - 1, 0, -1):     # keep the leading `next`
             c = case.copy()
             del c.events[i]
